@@ -23,8 +23,10 @@ second-generation bid path; first-generation bid path: price functions only, see
      `bidders_pay_le_target_counterexample`, `bidders_receive_le_collateral_counterexample` (DESIGN §7 D7)
   (what "pay"/"receive" mean in bank terms: `bid_moves_exactly`)
 * "each bid exchanges at the posted price, up to one smallest unit"   → `bid_at_posted_price` (collateral not exhausted),
-                                                                        `bid_at_posted_price_clipped_partial` (exhausted:
-                                                                        bound by the amount the bidder asked to pay)
+                                                                        `bid_at_posted_price_exhausted` (collateral exhausted:
+                                                                        against the amount charged + 2 debt units),
+                                                                        `bid_at_posted_price_exhausted_requested` (against
+                                                                        the amount the bidder asked to pay, no slack)
 * "when the auction ends the proceeds are fully distributed …"        → `close_proceeds_distributed` (burn + collector +
                                                                         keeper + initiator + pool + booked fees = target,
                                                                         unsold collateral to the owner)
@@ -240,10 +242,8 @@ theorem bid_at_posted_price (e : Env) (hw : WfEnv e) (a : Auc) (amt0 dt : Int) (
   exact plan_posted h hb (debtPrice_nonneg e dt hdt) hw.decD_pos hpr hw.decC_pos hs.2 hnc
 
 /-- collateral exhausted (`bid.go:54-69`): the bidder receives all that is left, which is less than what the amount he
-asked to pay (clipped to the remaining target) plus the bonus buys at the posted price.  `_partial`: the amount finally
-charged is recomputed from the left-over collateral (`bid.go:57`) and can be one smallest unit of the DEBT token below the
-exact value; that last step is checked on the real code by the monitor `posted_price`, not proved here. -/
-theorem bid_at_posted_price_clipped_partial (e : Env) (hw : WfEnv e) (a : Auc) (amt0 dt : Int) (p : Plan)
+asked to pay (clipped to the remaining target) plus the bonus buys at the posted price. -/
+theorem bid_at_posted_price_exhausted_requested (e : Env) (hw : WfEnv e) (a : Auc) (amt0 dt : Int) (p : Plan)
     (ha0 : 0 ≤ amt0) (hd0 : 0 ≤ a.debt) (hb : 0 ≤ a.bonus) (hpr : (0 : Int) ≤ a.price) (hdt : 0 ≤ dt)
     (hs : roundingSmall a.price e.decC = true)
     (h : plan e a amt0 (debtPrice e dt) = .ok p) (hc : p.clipped = true) :
@@ -252,6 +252,25 @@ theorem bid_at_posted_price_clipped_partial (e : Env) (hw : WfEnv e) (a : Auc) (
   unfold roundingSmall at hs
   simp only [Bool.and_eq_true, decide_eq_true_eq] at hs
   exact plan_clipped_bound h ha0 hd0 hb (debtPrice_nonneg e dt hdt) hw.decD_pos hpr hw.decC_pos hs.2 hc
+
+/-- **collateral exhausted, against the amount finally charged**: the bidder receives all that is left and that is at most one
+collateral unit above what `paid + 2` debt units plus the bonus buy at the posted price (one debt unit for the truncation of
+the recomputed bid `bid.go:57`, one for the half-even roundings of the intermediate values; side condition on the debt side
+`roundingSmallBack`, checked on every real bid). -/
+theorem bid_at_posted_price_exhausted (e : Env) (hw : WfEnv e) (a : Auc) (amt0 dt : Int) (p : Plan)
+    (hb : 0 ≤ a.bonus) (hpr : (0 : Int) ≤ a.price)
+    (hs : roundingSmall a.price e.decC = true) (hsb : roundingSmallBack (debtPrice e dt) e.decD = true)
+    (h : plan e a amt0 (debtPrice e dt) = .ok p) (hc : p.clipped = true) :
+    p.total = a.coll ∧ monPosted p.total (p.pay + 2) a.bonus (debtPrice e dt) e.decD a.price e.decC = true := by
+  unfold roundingSmall at hs
+  unfold roundingSmallBack at hsb
+  simp only [Bool.and_eq_true, decide_eq_true_eq] at hs hsb
+  unfold monPosted
+  simp only [decide_eq_true_eq]
+  have ht : p.total = a.coll := by
+    have := plan_ok h hb (Int.le_of_lt hsb.1) hw.decD_pos hpr hw.decC_pos
+    exact (this.clipped_close hc).2.2
+  exact ⟨ht, plan_clipped_posted h hb hsb.1 hw.decD_pos hpr hw.decC_pos hs.2 hsb.2 hc⟩
 
 /-- **the proceeds are fully distributed**: the bid that closes the auction (any kind: vault / lend / external) sends
 exactly `target` out of the module account — burned + fee collector + keeper + external initiator + lending pool + booked
